@@ -81,10 +81,36 @@ class Program:
                 return f
         return None
 
+    def lookup_fn(self, full, prefer=None):
+        """resolve a callee path to a dumped function: exact name first, then `::`-suffixes inside
+        the crate named by the leading path segment (names in a dump are trimmed paths)"""
+        f = self.lookup_exact(full, prefer)
+        if f is not None and f.kind == 'fn':
+            return f
+        segs = full.split('::')
+        if len(segs) >= 2:
+            cr = segs[0].replace('_', '-')
+            fs = self.crates.get(cr)
+            if fs is not None:
+                for k in range(1, len(segs)):
+                    g = fs.get('::'.join(segs[k:]))
+                    if g is not None and g.kind == 'fn':
+                        return g
+            if prefer and prefer in self.crates and segs[0] == 'crate':
+                fs = self.crates[prefer]
+                for k in range(1, len(segs)):
+                    g = fs.get('::'.join(segs[k:]))
+                    if g is not None and g.kind == 'fn':
+                        return g
+        return None
+
     def lookup_suffix(self, name, prefer=None, kinds=('const', 'static')):
         """find an item whose name is a '::'-suffix of `name` or vice versa"""
         segs = name.split('::')
         order = ([prefer] if prefer else []) + [c for c in self.order if c != prefer]
+        cr = segs[0].replace('_', '-')
+        if cr in self.crates:
+            order = [cr]
         for c in order:
             fs = self.crates.get(c, {})
             for k in range(len(segs)):
@@ -108,6 +134,7 @@ class CallCtx:
     __slots__ = ('callee', 'norm', 'args', 'dest_ty', 'fn', 'self_ty', 'trait', 'method', 'generics')
 
 
+DEFAULT_ABSTRACTIONS = {}    # 'crate::fn name' -> handler(I, args): dumped functions replaced by typed models
 MODELS = []      # (compiled regex, handler)
 MODEL_EXACT = {}
 
@@ -737,9 +764,11 @@ class Interp:
 
     # ------------------------------------------------------------ execution
     def call_fn(self, fn, args):
-        if fn.name in self.abstractions:
-            return self.abstractions[fn.name](self, args)
         key = '%s::%s' % (fn.src, fn.name)
+        h = self.abstractions.get(key) or self.abstractions.get(fn.name) or DEFAULT_ABSTRACTIONS.get(key)
+        if h is not None:
+            self.funcs_run['abstracted:' + key] = self.funcs_run.get('abstracted:' + key, 0) + 1
+            return h(self, args)
         self.funcs_run[key] = self.funcs_run.get(key, 0) + 1
         fr = Frame(fn)
         if len(args) != len(fn.args):
@@ -847,10 +876,10 @@ class Interp:
         crate = caller.src if caller else None
         # 1. a function defined in a dumped crate (exact, generics stripped)
         if not callee.startswith('<'):
-            f = self.prog.lookup_exact(full, crate)
+            f = self.prog.lookup_fn(full, crate)
             if f is None and full != norm:
-                f = self.prog.lookup_exact(norm, crate)
-            if f is not None and f.kind == 'fn':
+                f = self.prog.lookup_fn(norm, crate)
+            if f is not None:
                 return self.call_fn(f, args)
         c = CallCtx()
         c.callee, c.norm, c.args, c.dest_ty, c.fn = callee, norm, args, dest_ty, caller
